@@ -255,15 +255,32 @@ def split_lib_case(c, vs):
 
 def term_family(c, v):
     """TERM programs: with an out-of-line function the main code falls through into it (finding F-07).  Nothing is out of line
-    when inlining is on and every function has exactly one call site."""
-    import re
+    when inlining is on and every *reachable* function has exactly one call site in reachable code (call sites inside functions
+    that are never called do not count: that code is dropped)."""
+    import ast
 
-    src = c["src"]
-    names = re.findall(r"^def (\w+)\(", src, re.M)
-    single = all(len(re.findall(r"(?<![\w.])" + n + r"\(", src)) - 1 <= 1 for n in names)
-    called = [n for n in names if len(re.findall(r"(?<![\w.])" + n + r"\(", src)) - 1 >= 1]
-    if v.get("inline_functions", True) and single:
+    tree = ast.parse(c["src"])
+    funcs = {n.name: n for n in tree.body if isinstance(n, ast.FunctionDef)}
+
+    def calls(nodes):
+        out = []
+        for n in nodes:
+            for x in ast.walk(n):
+                if isinstance(x, ast.Call) and isinstance(x.func, ast.Name) and x.func.id in funcs:
+                    out.append(x.func.id)
+        return out
+
+    main_nodes = [n for n in tree.body if not isinstance(n, ast.FunctionDef)]
+    reach, todo = set(), calls(main_nodes)
+    while todo:
+        f = todo.pop()
+        if f not in reach:
+            reach.add(f)
+            todo += calls(funcs[f].body)
+    if not reach:
         return "TERM"
-    if not called:
+    sites = calls(main_nodes) + [x for f in reach for x in calls(funcs[f].body)]
+    single = all(sites.count(f) <= 1 for f in reach)
+    if v.get("inline_functions", True) and single:
         return "TERM"
     return "W-F07"
